@@ -195,6 +195,7 @@ type c11Srv struct {
 	IPF       *c11IPF   `json:"ipf,omitempty"`
 	Rules     []c11Rule `json:"rules"`
 	Edits     []string  `json:"edits,omitempty"` // how this generation was derived from the previous one (documentation only)
+	Trace     int       `json:"trace,omitempty"`    // mode mux: 0 no tracing section, 1 / 2: tracing (zipkin reporter, sampleRate 1) with tag set 1 / 2
 	MaxConn   int       `json:"max_conn,omitempty"` // mode rt: maxConnections (0: default), a hot field
 	KA        int       `json:"ka_s,omitempty"`  // mode rt: keepAliveTimeout in seconds (0: default); a change makes the runtime restart its net/http server
 }
@@ -458,6 +459,9 @@ func c11GenMux(rng *sim.Rand) *c11MuxSc {
 	if rng.Bool(pIPF) {
 		g0.IPF = c11GenIPF(rng)
 	}
+	if rng.Bool(0.3) {
+		g0.Trace = 1
+	}
 	nr := rng.Pick(1, 1, 2, 2, 3)
 	for i := 0; i < nr; i++ {
 		ru := c11Rule{}
@@ -484,6 +488,11 @@ func c11GenMux(rng *sim.Rand) *c11MuxSc {
 	for i := 0; i < ng; i++ {
 		s := c11EditSrv(rng, &sc.Gens[len(sc.Gens)-1], &nb)
 		s.GapUs = int64(rng.Pick(0, 0, 1, 10, 100, 1000, 3000))
+		if c11GenTracingChange && g0.Trace != 0 && rng.Bool(0.15) {
+			// mostly the tracing section stays as it is (same content, another spec object)
+			s.Trace = rng.Pick(0, 1, 2)
+			s.Edits = append(s.Edits, "tracing")
+		}
 		sc.Gens = append(sc.Gens, s)
 	}
 	if rng.Bool(0.1) && nb > 0 {
@@ -516,6 +525,10 @@ func c11SrvText(name string, s *c11Srv) string {
 	}
 	if s.MaxConn > 0 {
 		m["maxConnections"] = s.MaxConn
+	}
+	if s.Trace == 1 || s.Trace == 2 {
+		m["tracing"] = map[string]interface{}{"serviceName": "c11", "tags": map[string]string{"set": strconv.Itoa(s.Trace)},
+			"zipkin": map[string]interface{}{"serverURL": "http://zipkin.test:9411/api/v2/spans", "sampleRate": 1}}
 	}
 	if s.KA > 0 {
 		m["keepAliveTimeout"] = fmt.Sprintf("%ds", s.KA)
@@ -807,6 +820,20 @@ func c11ExecMux(r *sim.Run, sc *c11MuxSc) {
 	for _, b := range sc.Missing {
 		missing[b] = true
 	}
+	tracing := false
+	for i := range sc.Gens {
+		if sc.Gens[i].Trace < 0 || sc.Gens[i].Trace > 2 {
+			return
+		}
+		tracing = tracing || sc.Gens[i].Trace != 0
+	}
+	if tracing {
+		// the zipkin reporter posts its batches with a plain http.Client: keep it off the real network
+		oldTransport := http.DefaultTransport
+		http.DefaultTransport = c11NoNetwork{r}
+		defer func() { http.DefaultTransport = oldTransport }()
+		r.Probe("c11.mux.scenario_with_tracing")
+	}
 
 	// quiescent twins: exp[g][id]
 	type rq struct {
@@ -841,6 +868,7 @@ func c11ExecMux(r *sim.Run, sc *c11MuxSc) {
 			}
 			exp[g][x.id] = c11Outcome(rec)
 		}
+		t.close()
 	}
 	for g := 1; g < len(specs); g++ {
 		if texts[g] == texts[g-1] {
@@ -873,11 +901,20 @@ func c11ExecMux(r *sim.Run, sc *c11MuxSc) {
 	}
 	var sig strings.Builder
 	overlapDiff, afterDiff := 0, 0
+	running := map[string]string{} // requests inside mux.ServeHTTP
 
+	tasksLeft := 1 + len(sc.Clients)
 	r.Go("updater", func() {
+		defer func() { tasksLeft-- }()
 		for g := 1; g < len(specs); g++ {
 			if r.Aborted() {
 				return
+			}
+			if sc.Gens[g].Trace != 0 && sc.Gens[g].Trace == sc.Gens[g-1].Trace {
+				r.Probe("c11.mux.reload_keeps_tracing_section")
+				if inflight > 0 {
+					r.Probe("c11.mux.reload_keeps_tracing_section_while_traced_requests_in_flight")
+				}
 			}
 			gap := sc.Gens[g].GapUs
 			if gap < 0 || gap > 10_000_000 {
@@ -911,6 +948,7 @@ func c11ExecMux(r *sim.Run, sc *c11MuxSc) {
 		ci := ci
 		reqs := sc.Clients[ci].Reqs
 		r.Go(fmt.Sprintf("client%d", ci), func() {
+			defer func() { tasksLeft-- }()
 			for qi := range reqs {
 				if r.Aborted() {
 					return
@@ -932,12 +970,14 @@ func c11ExecMux(r *sim.Run, sc *c11MuxSc) {
 				f := &flight{hold: hold}
 				flights[id] = f
 				lo := done
+				running[id] = fmt.Sprintf("{%v} started with generation %d applied", q, lo)
 				inflight++
 				if inflight > maxInflight {
 					maxInflight = inflight
 				}
 				rec, pv, st := c11Serve(m, c11HTTPReq(q, id))
 				inflight--
+				delete(running, id)
 				hi := started
 				if f.entered {
 					hi = f.hiAtHnd
@@ -1004,7 +1044,42 @@ func c11ExecMux(r *sim.Run, sc *c11MuxSc) {
 			}
 		})
 	}
+	if tracing {
+		// watchdog: with a tracer a request can get stuck for good (reporter closed under
+		// it); nothing in a scenario takes virtual hours, stall decisions add 20 min at most
+		waited := time.Duration(0)
+		for step := time.Millisecond; tasksLeft > 0 && !r.Aborted() && !r.Violated(); step *= 2 {
+			if waited > 3*time.Hour {
+				var ids []string
+				for id := range running {
+					ids = append(ids, id+" "+running[id])
+				}
+				sort.Strings(ids)
+				class := "C11.mux.request-never-finishes"
+				for i := 1; i < len(sc.Gens); i++ {
+					if sc.Gens[i].Trace != sc.Gens[i-1].Trace {
+						// an update changed / removed the tracing section
+						class = "C11.mux.tracing-change-hangs-inflight-request"
+					}
+				}
+				r.Violate(class, "%d h of virtual time after the last update (%d of %d applied) these requests are still inside mux.ServeHTTP: %s\n"+
+					"tracing sections of the generations: %v\ncode path: mux.reload closes the tracer of the previous generation (oldInst.tracer.Close) when it takes the tracing section for changed; span.Finish of a request that started on it then never returns",
+					3, done, len(specs)-1, strings.Join(ids, "; "), func() []int {
+						var ts []int
+						for i := range sc.Gens {
+							ts = append(ts, sc.Gens[i].Trace)
+						}
+						return ts
+					}())
+				m.close()
+				return
+			}
+			r.Sleep(step)
+			waited += step
+		}
+	}
 	r.WaitTasks()
+	m.close()
 	if maxInflight >= 2 {
 		r.Probe("c11.mux.requests_overlap")
 	}
@@ -1012,6 +1087,27 @@ func c11ExecMux(r *sim.Run, sc *c11MuxSc) {
 		r.Nontrivial()
 	}
 	r.SetSig("mux|" + strings.Join(texts, "|") + "|" + sig.String())
+}
+
+// c11GenTracingChange: generate updates that change or remove the tracing
+// section. Before /repo commit 6177db7 such an update hung the sampled requests
+// in flight for good (class C11.mux.tracing-change-hangs-inflight-request, a
+// genuine defect, repaired); updates that KEEP the tracing section are generated
+// regardless of the switch.
+const c11GenTracingChange = true
+
+// c11NoNetwork answers every request of the process's default HTTP transport (the
+// zipkin reporter of a tracer) without touching a network.
+type c11NoNetwork struct{ r *sim.Run }
+
+func (n c11NoNetwork) RoundTrip(req *http.Request) (*http.Response, error) {
+	if req.Body != nil {
+		io.Copy(io.Discard, req.Body)
+		req.Body.Close()
+	}
+	n.r.Probe("c11.mux.trace_batch_reported")
+	return &http.Response{StatusCode: http.StatusAccepted, Status: "202 Accepted", Proto: "HTTP/1.1", ProtoMajor: 1, ProtoMinor: 1,
+		Header: http.Header{}, Body: http.NoBody, Request: req}, nil
 }
 
 // ---- dispatch -----------------------------------------------------------------------
@@ -1073,7 +1169,7 @@ func TestVerifC11(t *testing.T) {
 			"2-4 generations (Init, then Inherit which closes the previous one; 15% of the updates keep the NAME of the filter under test and change its KIND), requests park before / inside / after the filter under test while the updater inherits; " +
 			"65% of the Proxy scenarios are resilience-observable (Proxy variants 6/7: main pool and optional candidate pool, each with retry policy maxAttempts 2-3 / none, circuit breaker none / ample / tight, timeout 1h / none, failureCodes [503] / none, 3 server sets; updates keep / add / remove / change each of them or change something else while they stay; " +
 			"75% of the requests carry a backend script: the first 1-3 attempts fail by connection error, status 503 or by answering after 2h), judged by a reference model of the held generation's spec (attempt count, final status, servers, short-circuiting); tc: real TrafficController with a real HTTPServer object and Pipelines A,B,C, two updater tasks issuing create/apply/update/delete (and identical re-apply) on disjoint names, requests and GetHandler lookups; " +
-			"pipe also: 15% of the generations have no flow section (the filter order is the flow), jumps go to the post filter or to END, updates add / remove the flow section; tc also: in half of the scenarios a third updater creates / applies / updates / deletes pipelines of the SAME names pa, pb in a second namespace, Cleans that namespace and polls TrafficController.Status; UpdateTrafficGate besides ApplyTrafficGate; the final state of every name in both namespaces is compared with the reference; in half of the tc scenarios a neighbour of ANOTHER kind lives in the same namespace: a real MQTTProxy mq (real broker listening on the simulated network, Connect pipeline that parks 0-6 gates) which a fourth updater applies / updates (close old + init new) / deletes while 1-2 raw MQTT clients CONNECT / SUBSCRIBE / PUBLISH / PING at scheduler-chosen instants (each connection with a client id of its own); " +
+			"pipe also: 15% of the generations have no flow section (the filter order is the flow), jumps go to the post filter or to END, updates add / remove the flow section; tc also: in half of the scenarios a third updater creates / applies / updates / deletes pipelines of the SAME names pa, pb in a second namespace, Cleans that namespace and polls TrafficController.Status; UpdateTrafficGate besides ApplyTrafficGate; the final state of every name in both namespaces is compared with the reference; in half of the tc scenarios a neighbour of ANOTHER kind lives in the same namespace: a real MQTTProxy mq (real broker listening on the simulated network, Connect pipeline that parks 0-6 gates) which a fourth updater applies / updates (close old + init new) / deletes while 1-2 raw MQTT clients CONNECT / SUBSCRIBE / PUBLISH / PING at scheduler-chosen instants (each connection with a client id of its own); versions 2-5 of mq route PUBLISH through pipeline mqpub, whose only filter reports its version as generation marker, and the same updater creates / applies / updates / deletes mqpub, so that a connection that has already published keeps publishing across pipeline updates; 30% of the mux scenarios carry a tracing section (zipkin reporter kept off the network, sampleRate 1) which the updates keep (same content, new spec object); " +
 			"non-trivial = a request overlapped an update that changes its answer, or ran on a generation that had already been inherited from / closed, or started after an update that changes its answer; distinct = distinct (specs, ordered request/answer history)",
 		Real: []string{"pkg/object/httpserver mux (newMux, reload, ServeHTTP, search, cache), runtime + HTTPServer object (mode tc)", "pkg/object/pipeline Pipeline (Init, Inherit, Close, Handle)", "pkg/object/trafficcontroller (Create/Apply/Update/Delete Pipeline and TrafficGate, Clean, Status, Namespace.GetHandler)", "pkg/object/mqttproxy (MQTTProxy Init/Inherit/Close through the TrafficController, Broker incl. accept loop and CONNECT handshake, Client, SessionManager with the package's in-memory store, TopicManager) as a neighbour traffic gate in mode tc",
 			"pkg/filters: ratelimiter, proxy (pools, load balancers, memory cache, resilience wrappers), mock, requestadaptor, responseadaptor, validator, fallback, corsadaptor, builder, headertojson, certextractor", "pkg/supervisor Spec / ObjectEntity", "pkg/util/ratelimiter, pkg/util/ipfilter, pkg/protocols/httpprot, pkg/context"},
@@ -1089,6 +1185,8 @@ func TestVerifC11(t *testing.T) {
 			"mode tc: 'applied' for an HTTPServer update means its runtime has processed the reload event (observed by the updater polling the mux instance); a request that overlaps create/delete of its pipeline may get 503 or an answer",
 			"mode rt, keep-alive: a request sent on a kept connection that ends before any response byte and before its handler was entered is sent again on a fresh connection and only that attempt is judged (the server may close an idle connection at any time: idle timer during a stall, restart)",
 			"mode tc, neighbour MQTTProxy: an MQTT step (dial, CONNECT accepted, SUBACK, PUBACK, PINGRESP) must succeed when mq exists and no call on mq (other than an apply of an equal spec) overlapped the connection since its dial; otherwise nothing is asserted about it; a panic on a goroutine of the code under test cannot be recovered by the harness (Go offers no hook, the only deferred call of Broker.handleConn is Close of the framework's connection type): it ends the worker process and vcheck reports it as C11.process-crash with the panic value, the stack and a seed replay",
+			"mode tc, Publish pipeline of the MQTTProxy: a PUBLISH acknowledged on a connection during which mq was untouched must have been handled by exactly one generation of mqpub that was possibly in effect between the send and the handling (reference history of mqpub: a call that returned before the send has replaced the older state); no pipeline of that name in a possible state: handled without one",
+			"mode mux, tracing: requests still inside mux.ServeHTTP 3 h of virtual time after the tasks were started are reported (C11.mux.request-never-finishes; C11.mux.tracing-change-hangs-inflight-request when an update changed or removed the tracing section, a genuine defect, repaired in /repo by 6177db7; such updates are generated because const c11GenTracingChange = true)",
 			"mode tc: UpdateTrafficGate with a spec equal to the one in effect may or may not make the runtime reload (the statement only says that applying an unchanged spec is a no-op); if it reloads, the harness lets the reload finish before the next call",
 			"mode tc: nothing is asserted about the content of TrafficController.Status, only that the call returns; a panic in it is reported as C11.tc.panic",
 			"not generated: tracing, globalFilter, HTTPS, mirror pools, service discovery, filters that need a cluster / broker / wasm runtime / remote endpoint (HeaderLookup, Kafka, MQTT kinds, WasmHost, RemoteFilter), Validator basicAuth (real files)",
